@@ -6,10 +6,15 @@ import json, os, subprocess, shutil, sys, glob
 ROOT = os.path.dirname(os.path.abspath(__file__))
 scratch = "/tmp/verif_seed_regress"
 res = {}
+only = set(sys.argv[1:])     # optional: seed ids to re-run; the other entries of REGRESSION.json are kept
+if only and os.path.exists(os.path.join(ROOT, "seeded", "REGRESSION.json")):
+    res = json.load(open(os.path.join(ROOT, "seeded", "REGRESSION.json")))
 for d in sorted(glob.glob(os.path.join(ROOT, "seeded", "*"))):
     if not os.path.isdir(d):
         continue
     sid = os.path.basename(d)
+    if only and sid not in only:
+        continue
     patch = os.path.join(d, "patch.diff")
     meta = os.path.join(d, "meta.json")
     if not os.path.exists(patch) or not os.path.exists(meta):
